@@ -684,7 +684,16 @@ where
                     if n < max || g.as_mut_bytes().len() != n {
                         return format!("guard-bytes:{}", n);
                     }
-                    let mut g = match g.new_in_place(Dyn(spec)) {
+                    // a default message goes through UninitSendGuard::default_in_place where the type has one
+                    let built = if matches!(spec, Spec::Default) {
+                        match T::send_dflt_b(g) {
+                            Ok(r) => r,
+                            Err(g) => g.new_in_place(Dyn(spec)),
+                        }
+                    } else {
+                        g.new_in_place(Dyn(spec))
+                    };
+                    let mut g = match built {
                         Ok(g) => g,
                         Err(e) => return emplace_err_s(&e),
                     };
@@ -763,7 +772,15 @@ where
                     if n < max || g.as_mut_bytes().len() != n {
                         return Some(format!("guard-bytes:{}", n));
                     }
-                    let mut g = match g.new_in_place(Dyn(spec)) {
+                    let built = if matches!(spec, Spec::Default) {
+                        match T::send_dflt_a(g) {
+                            Ok(r) => r,
+                            Err(g) => g.new_in_place(Dyn(spec)),
+                        }
+                    } else {
+                        g.new_in_place(Dyn(spec))
+                    };
+                    let mut g = match built {
                         Ok(g) => g,
                         Err(e) => return Some(emplace_err_s(&e)),
                     };
@@ -1055,6 +1072,21 @@ mod tests {
         const STATIC_SIZE: Option<usize> = Some(<TMsg as FlatSized>::SIZE);
         fn dflt(b: &mut [u8]) -> Option<Result<(), flatty::Error>> {
             Some(<TMsg>::default_in_place(b).map(|_| ()))
+        }
+        fn wrap_dflt(b: &mut [u8]) -> Option<Result<(), flatty::Error>> {
+            Some(::flatty::FlatWrap::<TMsg, &mut [u8]>::default_in_place(b).map(|_| ()))
+        }
+        fn send_dflt_b<'a, B: flatty_io::blocking::WriteBuffer + 'a>(
+            g: flatty_io::blocking::UninitSendGuard<'a, Self, B>,
+        ) -> Result<Result<flatty_io::blocking::SendGuard<'a, Self, B>, flatty::Error>, flatty_io::blocking::UninitSendGuard<'a, Self, B>>
+        {
+            Ok(g.default_in_place())
+        }
+        fn send_dflt_a<'a, B: flatty_io::async_::AsyncWriteBuffer + 'a>(
+            g: flatty_io::async_::UninitSendGuard<'a, Self, B>,
+        ) -> Result<Result<flatty_io::async_::SendGuard<'a, Self, B>, flatty::Error>, flatty_io::async_::UninitSendGuard<'a, Self, B>>
+        {
+            Ok(g.default_in_place())
         }
     }
 
